@@ -257,6 +257,7 @@ def run(R, tier):
     reused_objects(R, rng, tier)
     no_mutation(R, rng, tier)
     same_name_registered(R, rng, tier)
+    two_algebras(R, rng, tier)
     symbolic_calls(R, rng, tier)
     large_algebra_histories(R, rng, tier)
     # ---- one thread held inside code generation while another makes the same call ----
@@ -474,6 +475,41 @@ def no_mutation(R, rng, tier):
             keep(f'the result of `r {aname} ..` on {r_desc}', r)
         if not ok:
             continue
+
+
+def two_algebras(R, rng, tier):
+    """Two equal algebra objects alive in one process (with and without a wrapper), calls interleaved between them - the same blade
+    sets in several storage orders on both: every call returns what a fresh algebra returns."""
+    for hi in range(8 if tier == 'quick' else 120):
+        d = rng.choice((2, 3))
+        spec = {'sig': [rng.choice((1, 1, -1, 0)) for _ in range(d)]}
+        wrapper = hi % 4 != 3
+        A, B = Session(spec, wrapper), Session(spec, wrapper)
+        canon = list(A.alg.canon2bin.values())
+        base = [rng.sample(canon, 2) for _ in range(2)]
+        hist = []
+        main = rng.choice(['gp', 'gp', 'op', 'add'])
+        for ci in range(24):
+            name = main if rng.random() < 0.75 else rng.choice(['gp', 'op', 'ip', 'add', 'f_mul'])
+            operands = []
+            for _ in range(2):
+                ks = list(rng.choice(base))
+                if rng.random() < 0.6:
+                    rng.shuffle(ks)
+                operands.append([(k, float(rng.randint(1, 7))) for k in ks])
+            which = rng.choice('AB')
+            call = (name, operands)
+            hist.append((which, name, [[k for k, _ in it] for it in operands]))
+            out, unchanged = (A if which == 'A' else B).do(call)
+            ref, _ = Session(spec, False).do(call)
+            R.count('history=two-algebras'); R.count('via=' + ('wrapper' if wrapper else 'direct')); R.case(('two-alg', hi, ci), ci > 0)
+            ok = (out[0] == ref[0]) and (same(out[1], ref[1]) if out[0] == 'ok' else out[1] == ref[1])
+            if not ok or not unchanged:
+                R.violation({'clause': 'history', 'via': 'two-algebras'},
+                            {'algebra': spec, 'wrapper': wrapper, 'history': hist, 'got': str(out), 'fresh': str(ref)},
+                            f'call {ci} ({name} on algebra object {which}) of the interleaved history {hist} over two equal algebras Algebra({algs.describe(spec)}, '
+                            f'wrapper={"set" if wrapper else "None"}) returned {out}, a fresh algebra returns {ref}'[:900])
+                break
 
 
 def same_name_registered(R, rng, tier):
